@@ -22,6 +22,12 @@ NA = {
 }
 
 CHECKS = {
+    "C11": {
+        "text": "Seeded deterministic simulation of set / __setitem__ / set_lru histories on one trie of a seeded class (LRUTrie, Canonicalized-, Normalized-, FingerprintedLRUTrie) x suffix_aware x the variant's options, by 1-3 writer clients with readers, live iterator tasks and faults (set() of a URL the tokeniser rejects, iterator cancellation) interleaved by a seeded scheduler. After every mutating event every URL of a per-run universe (12-80 URLs: scheme x auth x host chain x port x path chain x query x fragment and the spellings the variant merges) is matched and compared with longest-prefix lookup in a dict model keyed by cleaned stems; list and serialised LRUs must be interchangeable; len and iteration are compared; independently, all URLs the variant's URL-level function maps to one string must give the same answer and hit right after one of them is stored. Sampled evidence with minimised exactly-replayable counterexamples.",
+        "note": "Trusted: the prefix-map model (20 lines), CPython, and — shared between model and system — the repository's module-level stem functions (a stem bug consistent between set and match is C07/C12/C13's subject); the same-key law against canonicalize_url/normalize_url/fingerprint_url is the independent cross-check.",
+        "design": "DESIGN.md §4 C11",
+        "technique": "deterministic simulation with fault injection: seeded set/set_lru schedules over 4 trie classes x options, prefix-map reference model + same-key law, ddmin-minimised replay",
+    },
     "C09": {
         "text": "Seeded deterministic simulation of HostnameTrieSet add histories: random small-scope histories by 1-4 writer clients, one add multiset replayed under 2-4 seeded schedules (order independence), and the repository's own import-time histories (1,361 + 158 + 2 domains) in list order, shuffled and as the live module-level tries; readers, live iterator tasks and faults (iterator cancellation, add() of a non-string) are interleaved by the scheduler. After every add every hostname of depth <= depth+1 over the alphabet is matched in rotating URL forms and label spellings (case, punycode, IDN), and len / iteration are compared with the minimal covering set of a set-of-label-tuples model. Sampled evidence, minimised exactly-replayable counterexamples.",
         "note": "Trusted: the set model (20 lines), Python's idna codec for IDN labels, CPython. Hosts that are IP literals or 'localhost' are excluded by construction (documented as undefined).",
